@@ -16,6 +16,67 @@ From BT.Front Require Import Yaml YamlRes V2Conv V2Sem V2Proofs.
 Open Scope string_scope.
 Open Scope list_scope.
 
+(* ------------------------------------------------------------------ C18_equiv
+   For every barectf 2 document (after inclusions, alias expansion and inheritance: the tree the
+   converter receives) that is valid_v2, the converter succeeds and its output, read as the barectf 3
+   documentation says, IS the abstract configuration the barectf 2 document means: same byte order,
+   uuid, environment, log level aliases, clocks (frequency, precision, offsets, origin flag, description,
+   uuid, C type), packet header features, and per stream: default flag, clock, every feature with its
+   (size, signedness, alignment, base) field type, extra packet context members, event header features,
+   common context, and per event log level / context / payload with all field types at every nesting
+   depth and explicit enumeration ranges; identifier and file name prefixes; header options.
+   valid_v2 = the barectf 2 reading is defined (which implies the shape constraints of
+   schemas/config/2) + hypotheses H1-H6 of V2Sem.v, each shown necessary below by a refutation whose
+   witness the real code reproduces (findings).  "Absent in barectf 2 = absent in the twin" (S17). *)
+Theorem C18_equiv_partial : forall fuel t g,
+  v2_sem fuel t = Some g -> valid_v2 fuel t = true ->
+  exists t', conv_config t = Ok t' /\ v3_sem fuel t' = Some g.
+Proof. exact config_equiv. Qed.
+Print Assumptions C18_equiv_partial.
+
+(* the statement at full strength (no valid_v2) is FALSE of the faithful model, hence of /repo:
+   what is missing from C18_equiv_partial is exactly H1-H6, and they cannot be removed *)
+Theorem C18_equiv_refuted : ~ (forall fuel t g, v2_sem fuel t = Some g -> exists t', conv_config t = Ok t' /\ v3_sem fuel t' = Some g).
+Proof. exact equiv_full_refuted. Qed.
+Print Assumptions C18_equiv_refuted.
+
+(* non-vacuity: a document with two streams, clocks, mapped timestamps, every field type class, nested and
+   dynamic arrays, an enumeration with implicit values after explicit ones and after a range and a repeated
+   label, null properties, a prefix with two trailing underscores, header options, `$default-stream`;
+   the real barectf loads it on every run (c18.py) *)
+Example C18_equiv_nonvacuous : valid_v2 10 ex_valid_doc = true.
+Proof. vm_compute. reflexivity. Qed.
+
+Example C18_equiv_instance :
+  exists t' g, conv_config ex_valid_doc = Ok t' /\ v2_sem 10 ex_valid_doc = Some g /\ v3_sem 10 t' = Some g
+               /\ g_prefix_id g = "my_tr__" /\ g_prefix_file g = "my_tr" /\ List.length (g_streams g) = 2%nat.
+Proof.
+  destruct (v2_sem 10 ex_valid_doc) as [g|] eqn:E; [|vm_compute in E; discriminate].
+  destruct (C18_equiv_partial 10 ex_valid_doc g E C18_equiv_nonvacuous) as [t' [H1 H2]].
+  exists t', g. repeat split; try assumption; vm_compute in E; inversion E; reflexivity.
+Qed.
+
+(* NOT proved here (would need the JSON schema model of C09): `conv_valid : valid_v2 t -> the barectf 3 schema
+   accepts conv t`.  Acceptance of the converted tree by the real barectf 3 parser is covered by the oracle
+   of harness/props/c18.py on every generated document only. *)
+
+(* the components, each usable on its own *)
+Theorem C18_equiv_stream : forall fuel y s,
+  v2_stream fuel y = Some s -> valid_stream fuel y = true ->
+  exists y', conv_dst y = Ok y' /\ v3_stream fuel y' = Some s.
+Proof. exact stream_equiv. Qed.
+Print Assumptions C18_equiv_stream.
+
+Theorem C18_equiv_event : forall fuel y e,
+  v2_event fuel y = Some e -> valid_event fuel y = true ->
+  exists y', conv_ert y = Ok y' /\ v3_event fuel y' = Some (erase_event e).
+Proof. exact event_equiv. Qed.
+Print Assumptions C18_equiv_event.
+
+Theorem C18_equiv_clock : forall y c, v2_clock y = Some c -> exists y', conv_clock y = Ok y' /\ v3_clock y' = Some c.
+Proof. exact clock_equiv. Qed.
+Print Assumptions C18_equiv_clock.
+
 (* ------------------------------------------------------------------ field types, all nesting depths
    For every barectf 2 field type node the barectf 2 reading understands (any nesting of arrays and
    structures; all class spellings; signed / align / base / byte-order / encoding / property-mappings;
@@ -24,11 +85,20 @@ Open Scope list_scope.
    refutations below), the converter succeeds and its output, read as barectf 3 says, is the same
    abstract field type — minus the clock mapping, which barectf 3 does not carry in a field type
    (erase_clk; the mapping is remembered for the default clock, see C18_default_clock_inference). *)
-Theorem C18_field_type_conv : forall fuel y f,
+Theorem C18_field_type_conv_partial : forall fuel y f,
   v2_ft fuel y = Some f -> ft_conv_ok fuel y = true ->
   exists y', conv_ft y = Ok y' /\ v3_ft fuel y' = Some (erase_clk f).
 Proof. exact ft_equiv. Qed.
-Print Assumptions C18_field_type_conv.
+Print Assumptions C18_field_type_conv_partial.
+
+(* without ft_conv_ok the statement is false: `fields: null` crashes the converter, a float with `byte-order`
+   converts to a node barectf 3 does not accept *)
+Theorem C18_field_type_conv_refuted :
+  ~ (forall fuel y f, v2_ft fuel y = Some f -> exists y', conv_ft y = Ok y' /\ v3_ft fuel y' = Some (erase_clk f))
+  /\ (v2_ft 2 w_ft_fields_null = Some (FStruct None []) /\ conv_ft w_ft_fields_null = Crash)
+  /\ (v2_ft 2 w_ft_real_bo = Some (FReal 32 None) /\ exists y', conv_ft w_ft_real_bo = Ok y' /\ v3_ft 2 y' = None).
+Proof. exact ft_full_refuted. Qed.
+Print Assumptions C18_field_type_conv_refuted.
 
 (* ------------------------------------------------------------------ enumeration auto-increment
    For ALL well-shaped `members` lists (bare labels, {label, value: int}, {label, value: [lo, hi]}):
